@@ -2,8 +2,10 @@
 package drivers
 
 import (
+	_ "verif/mc/drivers/c01"
 	_ "verif/mc/drivers/c04"
 	_ "verif/mc/drivers/c05"
+	_ "verif/mc/drivers/c06"
 	_ "verif/mc/drivers/c11"
 	_ "verif/mc/drivers/c14"
 	_ "verif/mc/drivers/c15"
